@@ -29,6 +29,38 @@ func (c *FnCtx) call(ins ssa.Instruction, cc *ssa.CallCommon, res ssa.Value) {
 		}
 		c.bind(res, r)
 	}
+	// results of static calls (outside loops) get spec names res_<Callee>_<k> (single result) or
+	// res_<Callee>_<k>.<i> (tuple): "what this call of Callee returned", k-th call of that name in source order
+	if sc := cc.StaticCallee(); sc != nil && c.inl == nil && res != nil {
+		if c.resCount == nil {
+			c.resCount = map[string]int{}
+		}
+		nm := sc.Name()
+		c.resCount[nm]++
+		inLoop := false
+		for _, l := range c.loops {
+			if l != nil && l.Blocks[c.curBlk] {
+				inLoop = true
+			}
+		}
+		if !inLoop {
+			base := fmt.Sprintf("res_%s_%d", mangle(nm), c.resCount[nm])
+			if r.Tup != nil {
+				for i, v := range r.Tup {
+					if v.GT == nil && i < sc.Signature.Results().Len() {
+						v.GT = sc.Signature.Results().At(i).Type()
+					}
+					c.params[fmt.Sprintf("%s.%d", base, i)] = v
+				}
+			} else if r.T != "" {
+				v := r
+				if v.GT == nil && sc.Signature.Results().Len() == 1 {
+					v.GT = sc.Signature.Results().At(0).Type()
+				}
+				c.params[base] = v
+			}
+		}
+	}
 	// results of calls through function values get spec names dyn<k>.<i> (k-th such call in source order,
 	// outside loops only): "the value the callback returned in this call"
 	if !cc.IsInvoke() && cc.StaticCallee() == nil && c.inl == nil {
@@ -1168,6 +1200,9 @@ func mentionsDyn(x *SX) bool {
 		return false
 	}
 	if x.Op == "ident" && len(x.Name) > 3 && strings.HasPrefix(x.Name, "dyn") && x.Name[3] >= '0' && x.Name[3] <= '9' {
+		return true
+	}
+	if x.Op == "ident" && strings.HasPrefix(x.Name, "res_") {
 		return true
 	}
 	for _, a := range x.Args {
